@@ -27,6 +27,8 @@ var (
 	watchdog = flag.Duration("watchdog", 30*time.Second, "watchdog before goroutine-dump classification")
 	l2Case   = flag.Int("l2case", -1, "run only this L2 scenario in-process and print its result")
 	l2Only   = flag.Bool("l2only", false, "skip the component part (development aid; the floor still applies)")
+	busyOnly = flag.Bool("busyonly", false, "run only the busy-handler family of the component part (development aid; the floor still applies)")
+	busyN    = flag.Int("busyn", 0, "number of busy-handler cases (default: by tier)")
 )
 
 type sample struct {
@@ -70,7 +72,13 @@ func main() {
 		"callback outcomes (nil, each BroadcastError code, plain error, custom-mapped errors) for the initial broadcast and for every " +
 		"later rebroadcast, interleaved with block events on an UNBUFFERED subscription channel, MarkAsConfirmed calls, rounds held open " +
 		"inside the callback, the handler held inside an initial broadcast, interval ticks (tick subset) and Stop at scripted points, " +
-		"followed by calls after Stop. Fingerprint = (DAG shape class, #tx bucket, outcome mix, trigger kinds, stop timing, " +
+		"followed by calls after Stop. Busy-handler family (cases from index c15.BusyBase on; three fixed scenarios, then seeded): 1-3 pending " +
+		"transactions with dependencies among them, tick mode with an interval of 20-80 ms, NO block event, and for 20-40 intervals one or two callers keep " +
+		"calling the broadcaster with unrelated things (Broadcast of transactions that are rejected / accepted, MarkAsConfirmed of unrelated / unknown hashes) " +
+		"pausing interval/8..interval/2 between calls; judged by bounded progress: in a window in which the harness' own chain of >= 20 interval timers fired one " +
+		"after the other, the handler answered >= that many unrelated calls in >= half of the timer slots, and no rebroadcast was running (goroutine dumps at both " +
+		"ends, no callback in between), at least one rebroadcast containing every transaction that was pending throughout must have been started (zero = violation; " +
+		"fewer than one per interval is not; preconditions not established = inconclusive). Fingerprint = (DAG shape class, #tx bucket, outcome mix, trigger kinds, stop timing, " +
 		"confirmation timings). Non-trivial = at least one rebroadcast round was observed or at least one call was issued after Stop. || " +
 		c15.L2Rule + " || " + c15.L2CoSubRule)
 	r.Assume("The harness' single mutex + sequence counter orders call/return events consistently with real time (call logged before, return after).")
@@ -102,20 +110,39 @@ func main() {
 		return
 	}
 	if *oneCase >= 0 {
-		runOne(c15.Gen(r.Seed, *oneCase), opt)
+		runOne(c15.GenAny(r.Seed, *oneCase), opt)
 		return
 	}
 
 	n := r.Pick(300, 30000)
+	nBusy := r.Pick(12, 200)
+	if *busyN > 0 {
+		nBusy = *busyN
+	}
 	if *l2Only {
+		n, nBusy = 0, 0
+	}
+	if *busyOnly {
 		n = 0
 	}
 	nw := *workers
 	if nw <= 0 {
 		nw = runtime.NumCPU()
 	}
-	results := make([]*c15.Result, n)
+	results := make([]*c15.Result, n+nBusy)
 	var wg sync.WaitGroup
+	// The busy-handler cases mostly wait for timers: they run next to the
+	// worker pool, at most 16 at a time.
+	busySem := make(chan struct{}, 16)
+	for j := 0; j < nBusy; j++ {
+		wg.Add(1)
+		go func(j int) {
+			defer wg.Done()
+			busySem <- struct{}{}
+			results[n+j] = c15.Run(c15.GenBusy(r.Seed, j), opt)
+			<-busySem
+		}(j)
+	}
 	next := make(chan int)
 	for w := 0; w < nw; w++ {
 		wg.Add(1)
@@ -137,6 +164,9 @@ func main() {
 
 	var pendingTotal int64
 	tickSchedules, tickRounds := 0, 0
+	busyJudged := 0
+	var busyMargins [][2]int
+	var worstMargin [2]int
 	for i, res := range results {
 		r.Case(res.Fingerprint, res.Nontrivial)
 		st := res.Stats
@@ -161,13 +191,33 @@ func main() {
 		r.Count("history_events", int64(len(res.Log)))
 		r.Count("duplicate_tx_in_round", int64(st.DupInRound))
 		pendingTotal += int64(len(res.Pending))
+		if res.Spec.Busy != nil {
+			r.Count("busy_schedules", 1)
+			r.Count("busy_windows", int64(st.BusyWindows))
+			r.Count("busy_windows_judged", int64(st.BusyJudged))
+			r.Count("busy_window_interval_timers_fired", int64(st.BusyIntervals))
+			r.Count("busy_window_rounds_started", int64(st.BusyRounds))
+			r.Count("busy_window_unrelated_calls_answered", int64(st.BusyCalls))
+			r.Count("busy_window_watched_transactions", int64(st.BusyWatched))
+			r.Count("busy_window_rounds_with_every_watched_tx", int64(st.BusyRoundsWithWatched))
+			busyJudged += st.BusyJudged
+			for _, m := range st.BusyMargins {
+				busyMargins = append(busyMargins, m)
+				if worstMargin[1] == 0 || m[0]*worstMargin[1] < worstMargin[0]*m[1] {
+					worstMargin = m
+				}
+			}
+			if i-n < 3 {
+				r.Mark("busy-fixed-" + fmt.Sprint(i-n) + "/" + res.Fingerprint)
+			}
+		}
 		if res.Spec.Tick {
 			r.Count("tick_schedules", 1)
 			r.Count("tick_started_rounds_observed", int64(st.Rounds))
 			tickSchedules++
 			tickRounds += st.Rounds
 		}
-		if i < 400 && i%67 == 0 {
+		if (i < 400 && i%67 == 0) || i == n {
 			r.Sample(sample{Case: i, Fingerprint: res.Fingerprint, Spec: res.Spec, Stats: st,
 				Events: len(res.Log), Pending: len(res.Pending), PostStop: res.PostStopCalls,
 				Holds: res.HoldsEngaged, Findings: res.Findings})
@@ -185,8 +235,12 @@ func main() {
 				continue
 			}
 			seen[f.Sig] = true
-			r.Violation(f.Sig, fmt.Sprintf("case %d: %s", i, f.What),
-				witness{Case: i, Spec: res.Spec, Finding: f, Log: res.Log, AllSigs: sigs})
+			caseNo := i
+			if res.Spec.Busy != nil {
+				caseNo = res.Spec.Case // usable with -case
+			}
+			r.Violation(f.Sig, fmt.Sprintf("case %d: %s", caseNo, f.What),
+				witness{Case: caseNo, Spec: res.Spec, Finding: f, Log: res.Log, AllSigs: sigs})
 		}
 	}
 	r.Count("calls_not_returned_at_schedule_end", pendingTotal)
@@ -194,19 +248,36 @@ func main() {
 	r.Set("schedule_phase_wall_s", runWall.Seconds())
 	r.Set("max_round_size", maxRound(results))
 	floor := r.Pick(60, 300)
+	if *busyOnly {
+		floor = 1
+	}
+	if nBusy > 0 {
+		r.Set("busy_windows_rounds_vs_timers", busyMargins)
+		r.Set("busy_window_worst_rounds_vs_timers", worstMargin)
+		fmt.Printf("C15 busy-handler family: %d windows judged, worst window %d rounds with every watched tx in %d intervals\n",
+			busyJudged, worstMargin[0], worstMargin[1])
+		if busyJudged == 0 {
+			r.Broken(fmt.Sprintf("busy-handler family: none of %d windows could be judged", nBusy))
+		}
+	}
 
 	// L2 part: one child process per scenario.
 	l2Start := time.Now()
 	var l2Evaluated, l2Replied, l2AllowedFailures, l2Rebroadcasts, l2CoJudged, l2CoDeep atomic.Int64
 	nL2 := r.Pick(16, 600)
-	l2.RunScenariosCB(r, nL2, 240*time.Second, c15.L2Scenario, func(res *l2.Result) {
-		l2Evaluated.Add(res.Counters["l2_calls_evaluated"])
-		l2Replied.Add(res.Counters["l2_calls_with_replies"])
-		l2AllowedFailures.Add(res.Counters["l2_allowed_failures"])
-		l2Rebroadcasts.Add(res.Counters["l2_rebroadcast_seen_by_all_peers"])
-		l2CoJudged.Add(res.Counters["l2_cosub_rebroadcast_judged"])
-		l2CoDeep.Add(res.Counters["l2_cosub_cancel_with_21plus_unread"])
-	})
+	if *busyOnly {
+		nL2 = 0
+	}
+	if nL2 > 0 {
+		l2.RunScenariosCB(r, nL2, 240*time.Second, c15.L2Scenario, func(res *l2.Result) {
+			l2Evaluated.Add(res.Counters["l2_calls_evaluated"])
+			l2Replied.Add(res.Counters["l2_calls_with_replies"])
+			l2AllowedFailures.Add(res.Counters["l2_allowed_failures"])
+			l2Rebroadcasts.Add(res.Counters["l2_rebroadcast_seen_by_all_peers"])
+			l2CoJudged.Add(res.Counters["l2_cosub_rebroadcast_judged"])
+			l2CoDeep.Add(res.Counters["l2_cosub_cancel_with_21plus_unread"])
+		})
+	}
 	r.Set("l2_phase_wall_s", time.Since(l2Start).Seconds())
 	r.Set("l2_scenarios", nL2)
 	if nL2 >= 12 {
